@@ -392,6 +392,16 @@ func c16Run(ctx *core.Ctx, tree int, dotu bool) core.Result {
 		} else {
 			// partial or failed: both fids are left as they were
 			statIs(10, startRel, what+": after the incomplete walk the source fid", "partial-walk-moved-fid;"+sig)
+			// … also in the sense that it can still be walked from: the existing prefix resolves again
+			if exist >= 1 && w != nil && w.Type == wire.Rwalk {
+				again := rr.rpc(&wire.Msg{Type: wire.Twalk, Fid: 10, Newfid: 12, Wname: names[:exist]})
+				res.Evals++
+				if again == nil || again.Type != wire.Rwalk || len(again.Wqid) != exist {
+					fail("partial-walk-source-unusable;"+sig, what+fmt.Sprintf(": walking the existing prefix (%d names) again from the source fid answered %v", exist, again))
+				} else {
+					rr.rpc(&wire.Msg{Type: wire.Tclunk, Fid: 12})
+				}
+			}
 			if !inplace {
 				if st := rr.rpc(&wire.Msg{Type: wire.Tstat, Fid: 11}); st == nil || st.Type != wire.Rerror {
 					fail("partial-walk-newfid-valid;"+sig, what+": the new fid is valid after an incomplete walk")
